@@ -175,6 +175,21 @@ def run(tier: str) -> int:
         pf = float(np.nextafter(rngf, np.inf)) if kind == "above" else rngf if kind == "equal" else float(np.nextafter(rngf, 0.0))
         stand = {"above": ([0], [2], [3]), "equal": ([0], [2], [2]), "below": ([0], [3], [2])}[kind]
         events.append(call(2, *stand, 1.0, rng.choice(["list", "array"]), rtol=1e-9, floats=([a], [b], [pf])))
+    # (c4) bounds of large magnitude whose range is tiny relative to them (exactly representable): a well-formed five-point grid,
+    #      inverted bounds and a precision above the range are told apart as for any other bounds
+    for _ in range(40 if tier == "quick" else 600):
+        a = float(2 ** rng.randint(18, 26)) * rng.choice([1.0, -1.0, 1.5])
+        w = 2.0 ** -rng.randint(8, 12)                 # range / |a| between 1e-8 and 1e-12
+        b = a + w
+        if b - a != w:
+            continue
+        kind = rng.choice(["ok", "ok", "inverted", "toolarge"])
+        if kind == "ok":
+            events.append(call(2, [0], [4], [1], 1.0, rng.choice(["list", "array"]), rtol=1e-9, floats=([a], [b], [w / 4])))
+        elif kind == "inverted":
+            events.append(call(2, [4], [0], [1], 1.0, "list", rtol=1e-9, floats=([b], [a], [w / 4])))
+        else:
+            events.append(call(2, [0], [4], [5], 1.0, "list", rtol=1e-9, floats=([a], [b], [w * 1.25])))
     # (d) the two ends of the scale, where the fixed 1e-7 end-point tolerance matters: tiny precisions and huge bounds
     for _ in range(40 if tier == "quick" else 400):
         steps = rng.choice([10, 1000, 10**5])
